@@ -5,6 +5,7 @@ and on the Lean model (`sd_reconnect`, op `run`); the two event traces are compa
 exact rationals).  Independently the property oracle below - the statement of C10 computed with
 `fractions.Fraction` from the scenario alone - is evaluated on the implementation's observations.
 """
+import copy
 import itertools
 import json
 from fractions import Fraction as F
@@ -66,6 +67,9 @@ def build_params(spec):
                 return v
             return f
         return v
+    # the library is handed copies: the scenario keeps what the application passed, so a value changed in
+    # place by the library (a header added to the dict, a namespace removed from the list) is seen
+    spec = copy.deepcopy(spec)
     p = {'url': wrap(spec['url'], spec.get('url_fn', 'plain'))}
     if 'headers' in spec:
         p['headers'] = wrap(spec['headers'], spec.get('headers_fn', 'plain'))
@@ -151,6 +155,53 @@ def efforts_from_pattern(rng, mode, cfg, pattern, nns, stop_at_failure=True):
         if ended != 'connected':
             break
     return steps
+
+
+MULTI_NS = [None, None, ['/a', '/b'], ['/b', '/'], ['/', '/a', '/b'], ['/b', '/a', '/'], ['/', '/a']]
+ALL_NS = ['/', '/a', '/b']      # = world_reconnect.NS_UNIVERSE: what namespaces=None derives from the handlers
+
+
+def ends_connected(cfg, step):
+    """does this scripted effort end by a successful attempt"""
+    return step[4] is None and bool(step[2]) and step[2][-1] == ['S', []] \
+        and not (cfg['attempts'] and len(step[2]) > cfg['attempts'])
+
+
+def life_steps(rng, names, first, late_done):
+    """What may happen between connect() and the accidental loss WITHOUT changing what connect() was
+    given: some namespaces refused by the server (connect(wait=False): the client stays up on the
+    others), namespaces ended by the server one at a time (DISCONNECT packet; never the last one: that
+    is the cause 'serverDisconnect'), application traffic, a handler registered for a new namespace.
+    -> (steps, something happened)"""
+    live = list(names)
+    steps = []
+    happened = False
+    if first:
+        refusable = [n for n in names if n != '/']      # refusing '/' is C08's known finding F9
+        r = rng.random()
+        if r < 0.35 and refusable and len(names) >= 2:
+            refused = rng.sample(refusable, rng.randint(1, min(len(refusable), len(names) - 1)))
+            steps.append(['connect', 0, {'wait': False, 'refuse': sorted(refused)}])
+            live = [n for n in names if n not in refused]
+            happened = True
+        elif r < 0.45:
+            steps.append(['connect', 0, {'wait': False, 'refuse': []}])
+        else:
+            steps.append(['connect', 0])
+    for _ in range(rng.randint(0 if happened else 1, 3)):
+        r = rng.random()
+        if r < 0.65 and len(live) >= 2:
+            n = rng.choice(live)
+            live.remove(n)
+            steps.append(['nsend', n])
+            happened = True
+        elif r < 0.85:
+            steps.append(['app', 'emit', rng.choice(live)])
+        elif not late_done:
+            steps.append(['app', 'late_handler', None])
+            late_done = True
+            happened = True
+    return steps, late_done
 
 
 def scenario(mode, cfg, params, steps, tag):
@@ -283,6 +334,25 @@ def gen_scenarios(ctx):
         rands = [rand8(rng) for _ in range(k)] + ['%d/8' % rng.choice(c)] + [rand8(rng) for _ in range(3)]
         steps = [['connect', 0], ['lose', 'transportError', outs, rands, k, 'preset']]
         out.append(scenario(mode, cfg, [ps], steps, 'abort-flag-before-nonblocking-wait'))
+    # (9) the life of a connection: several namespaces (given or derived from the handlers); between
+    #     connect() and the accidental loss the server refuses / ends some of them, the application
+    #     emits or registers handlers; the effort must still use what connect() was given
+    for _ in range(ctx.scale(700, 12000)):
+        mode = rng.choice(modes)
+        cfg = mk_cfg(rng, n=rng.choice([0, 0, 5, 2]))
+        ps = gen_params(rng, mode, simple=rng.random() < 0.3)
+        ps['namespaces'] = copy.deepcopy(rng.choice(MULTI_NS))
+        names = list(ps['namespaces'] or ALL_NS)
+        steps, late = life_steps(rng, names, True, False)
+        pattern = [rng.random() < 0.4 for _ in range(rng.randint(0, 3))] + [True]
+        eff = efforts_from_pattern(rng, mode, cfg, pattern, len(names))[:1]
+        steps += eff
+        if ends_connected(cfg, eff[0]) and rng.random() < 0.5:
+            # reconnected on every namespace: a second round on the new connection
+            more, late = life_steps(rng, names, False, late)
+            steps += more
+            steps += efforts_from_pattern(rng, mode, cfg, [rng.random() < 0.5, True], len(names))[:1]
+        out.append(scenario(mode, cfg, [ps], steps, 'life'))
     rng.shuffle(out)
     return out
 
@@ -310,13 +380,49 @@ def run_impl(sc):
                 if w.client.connected:
                     obs['skipped'] = 'connect while connected'
                     break
-                res = w.connect(st[1])
-                cidx = w.canon_idx(w.conn_table[st[1]])
+                opts = st[2] if len(st) > 2 else None
+                if opts:
+                    res = w.connect(st[1], outcome=('N', list(opts['refuse'])), wait=opts['wait'])
+                else:
+                    res = w.connect(st[1])
+                cidx = w.canon_idx(w.conn_pristine[st[1]])
                 stored = (cidx, list(w.client.connection_namespaces or []), st[1])
-                obs['model_inputs'].append({'connect': {'conn': cidx, 'nss': [C.s2w(n) for n in stored[1]]}})
+                mi = {'conn': cidx, 'nss': [C.s2w(n) for n in stored[1]]}
+                if opts and not opts['wait']:
+                    obs['model_inputs'].append({'connectNoWait': dict(
+                        mi, acc=[n not in opts['refuse'] for n in stored[1]])})
+                else:
+                    obs['model_inputs'].append({'connect': mi})
                 obs['steps'].append({'kind': 'connect', 'idx': st[1], 'result': res, 'stored': stored, 'p0': p0,
-                                     'trace': w.trace[t0:], 'eio': w.eio_attempts[e0:],
-                                     'connected_after': w.client.connected})
+                                     'trace': w.trace[t0:], 'eio': w.eio_attempts[e0:], 'opts': opts,
+                                     'connected_after': w.client.connected,
+                                     'live_after': sorted(w.client.namespaces),
+                                     'mi': len(obs['model_inputs'])})
+            elif st[0] == 'nsend':
+                ns = st[1]
+                if not w.client.connected or ns not in w.client.namespaces or len(w.client.namespaces) < 2:
+                    obs['skipped'] = 'nsend not applicable'
+                    break
+                s0 = w.efforts_started
+                w.script([], [], None)
+                w.ns_end(ns)
+                obs['model_inputs'].append({'nsEnd': C.s2w(ns)})
+                obs['steps'].append({'kind': 'nsend', 'ns': ns, 'p0': p0, 'stored': stored,
+                                     'started': w.efforts_started - s0, 'trace': w.trace[t0:],
+                                     'eio': w.eio_attempts[e0:], 'connected_after': w.client.connected,
+                                     'live_after': sorted(w.client.namespaces),
+                                     'mi': len(obs['model_inputs'])})
+            elif st[0] == 'app':
+                if not w.client.connected:
+                    obs['skipped'] = 'application step while not connected'
+                    break
+                s0 = w.efforts_started
+                w.app(st[1], st[2])
+                obs['steps'].append({'kind': 'app', 'what': st[1], 'p0': p0, 'stored': stored,
+                                     'started': w.efforts_started - s0, 'trace': w.trace[t0:],
+                                     'eio': w.eio_attempts[e0:], 'connected_after': w.client.connected,
+                                     'live_after': sorted(w.client.namespaces),
+                                     'mi': len(obs['model_inputs'])})
             else:
                 _k, cause, outs, rands, abort_at, abort_mode = st
                 if not w.client.connected:
@@ -326,6 +432,7 @@ def run_impl(sc):
                 w.script(impl_outs, [float(F(r)) for r in rands], abort_at, abort_mode)
                 s0 = w.efforts_started
                 w.in_list_at_wait = []
+                live_before = sorted(w.client.namespaces)
                 finals = w.lose(cause)
                 started = w.efforts_started - s0
                 if started:
@@ -342,7 +449,9 @@ def run_impl(sc):
                     'task_after': w.client._reconnect_task is not None,
                     'in_list_after': w.client in W.sio_base.reconnecting_clients,
                     'in_list_at_wait': list(w.in_list_at_wait), 'max_concurrent': w.max_concurrent,
-                    'unused_outs': len(w.outs), 'unused_rands': len(w.rands) - w.rand_i})
+                    'unused_outs': len(w.outs), 'unused_rands': len(w.rands) - w.rand_i,
+                    'live_before': live_before, 'live_after': sorted(w.client.namespaces),
+                    'mi': len(obs['model_inputs'])})
     finally:
         w.close()
         obs['problems'] = list(w.problems)
@@ -403,6 +512,18 @@ def oracle(sc, obs):
     bad, known = [], []
     failed_before = False          # an earlier effort of this client ended by give-up or abort
     for si, st in enumerate(obs['steps']):
+        if st['kind'] in ('nsend', 'app'):
+            # the server ending one namespace of several, or the application using the connection, is
+            # not a loss of the connection: nothing is retried, the client stays connected
+            what = 'the server ended namespace %s, others stay connected' % st['ns'] if st['kind'] == 'nsend' \
+                else 'application step %s' % st['what']
+            if st['started'] or st['eio'] or any(
+                    isinstance(e, dict) and ('wait' in e or 'attempt' in e or 'notified' in e) for e in st['trace']):
+                bad.append('step %d (%s): a reconnection effort / connection attempt was made although the '
+                           'connection was not lost' % (si, what))
+            if not st['connected_after']:
+                bad.append('step %d (%s): the client is not connected any more' % (si, what))
+            continue
         if st['kind'] != 'lose':
             continue
         where = 'step %d (%s)' % (si, st['cause'])
@@ -587,7 +708,7 @@ def check_scenario(ctx, sc, obs, ans, cut):
 
 
 def model_line(sc, obs, cut):
-    n_inputs = cut
+    n_inputs = obs['steps'][cut - 1]['mi'] if 0 < cut <= len(obs['steps']) else 0
     return {'op': 'run', 'cfg': {k: sc['cfg'][k] for k in ('reconnection', 'attempts', 'delay', 'delayMax', 'rf')},
             'inputs': obs['model_inputs'][:n_inputs]}
 
@@ -676,10 +797,20 @@ def run(ctx):
             ctx.violation('correspondence', 'model and harness disagree on the known-finding region',
                           {'scenario': sc}, no_input=True)
         for st in obs['steps']:
+            if st['kind'] == 'nsend':
+                ctx.count('life.namespace_ended_by_server_others_stay')
+            elif st['kind'] == 'app':
+                ctx.count('life.application.' + st['what'])
+            elif st['kind'] == 'connect' and st.get('opts'):
+                ctx.count('life.connect_nowait' + ('.namespaces_refused' if st['opts']['refuse'] else ''))
             if st['kind'] != 'lose':
                 continue
             ctx.count('cause.' + st['cause'])
             n_losses += 1
+            if st['started'] and st['live_before'] != sorted(st['stored'][1]):
+                ctx.count('effort.started_while_connected_on_fewer_namespaces_than_connect_was_given')
+                if len(st['stored'][1]) >= 3:
+                    nontrivial.add(json.dumps([sc['mode'], sc['cfg'], sc['steps']]))
             if st['started']:
                 na = sum(1 for e in st['trace'] if isinstance(e, dict) and 'attempt' in e)
                 n_attempts += na
@@ -708,7 +839,12 @@ def run(ctx):
                 '(every fail/succeed pattern up to length 6 exhaustively, sampled up to 40, failures being '
                 'transport refusals, namespace refusals (CONNECT_ERROR, partial or total) or a loss inside the '
                 'attempt; abort at every back-off wait by shutdown() or the abort flag; full grid of '
-                'delay x max x factor x limit; reconnection on/off; several connects with different parameters). '
+                'delay x max x factor x limit; reconnection on/off; several connects with different parameters; '
+                'connections on 2-3 namespaces (given, or derived from the handlers by namespaces=None) on which, between '
+                'connect() and the loss, the server refuses some namespaces (connect(wait=False)) or ends them one by '
+                'one (DISCONNECT packet) and the application emits / registers a handler for a new namespace: the '
+                'attempts must carry what connect() was given, the values the application passed being kept apart '
+                'from the objects handed to the library). '
                 'evaluation = one loss of the connection (decision + the effort it starts, if any); '
                 'non-trivial = distinct (family, configuration, effort script) with >= 2 attempts or an abort',
         'attempts_observed': n_attempts,
